@@ -132,6 +132,11 @@ func addLE(f nilFacts, ta string, ka int64, tb string, kb int64, c int64) {
 
 // condNumFacts adds the numeric consequences of taking an edge of a comparison.
 func (a *NilAnalysis) condNumFacts(cond ssa.Value, taken bool, f nilFacts) {
+	if a.condDepth > 24 {
+		return
+	}
+	a.condDepth++
+	defer func() { a.condDepth-- }()
 	switch c := cond.(type) {
 	case *ssa.UnOp:
 		if c.Op == token.NOT {
